@@ -71,7 +71,7 @@ def proof_list(v, d, seed, tier):
     return n
 
 
-def keys_through_keeper(v, d, seed, tier):
+def keys_through_keeper(v, d, seed, tier, prop="C06"):
     """C06 (and the keeper half of C05): the real wallet behind the real keeper.  Request sequences with restarts; the
     ordinal and key in the wallet, in the keeper's space id and in the plot file names must agree, a restarted node
     must recognise every plot file again, and every space must sign under its key.  Only those aspects are reported
@@ -99,10 +99,12 @@ def keys_through_keeper(v, d, seed, tier):
         # attribution only (the rejection is TLC's): does the disagreement concern keys / ordinals?
         pairs = lambda xs: sorted((x.get("o"), x.get("bl")) for x in xs or [])
         keyish = pairs(e.get("idx")) != pairs(e.get("files")) or any(p_ not in pairs(e.get("files")) for p_ in pairs(e.get("sel")))
-        if e.get("a") == "Restart" or e.get("signok") is False or e.get("walleterr") or keyish:
+        mine = (e.get("signok") is False or bool(e.get("walleterr"))) if prop == "C05" else (
+            e.get("a") == "Restart" or e.get("signok") is False or e.get("walleterr") or keyish)
+        if mine:
             v.classify(dict(cause="keys_through_keeper", action=e.get("a")), d_, dict(scenario=scen[i], rejected_step=k + 1, event=e))
         else:
-            log("NOTE (belongs to C15): " + d_[:300])
+            log("NOTE (not %s's): " % prop + d_[:300])
     log("real wallet behind the real keeper: %d request sequences with restarts" % len(scen))
     v.cov["keeper_with_real_wallet_scenarios"] = len(scen)
     return len(scen)
